@@ -6,5 +6,5 @@ S=/tmp/aeq_mut_$$
 rm -rf "$S"; git -C /repo worktree add -q --detach "$S" HEAD || exit 2
 ( cd "$S" && if [[ "$PATCH" == *.sh ]]; then bash "$PATCH"; else git apply "$PATCH"; fi && ! git diff --quiet ) || { echo "PATCH DOES NOT APPLY"; git -C /repo worktree remove --force "$S"; exit 2; }
 echo "== repo tests on mutated copy"; /verif/tools/repo_tests.sh "$S" | head -5
-for c in "$@"; do echo "== $c"; AEQ_REPO="$S" /verif/check "$c" quick 2>&1 | grep -E "VIOLATION|KNOWN|HELD|VIOLATED|INCONCLUSIVE|^\s+\[" | head -8; done
+for c in "$@"; do echo "== $c"; AEQ_REPO="$S" /verif/check "$c" quick > /tmp/mut_$$.log 2>&1; grep -E "^\s+\[" /tmp/mut_$$.log | head -3 | cut -c1-260; grep -E "HELD|VIOLATED|INCONCLUSIVE" /tmp/mut_$$.log | tail -1; rm -f /tmp/mut_$$.log; done
 git -C /repo worktree remove --force "$S"; git -C /repo worktree prune
